@@ -79,13 +79,28 @@ static Outcome run_offsets(const SpecCase& c) {
     Config& cfg = need_config(c.cfg);
     World w(cfg, c.spec);
     w.register_all();
+    // one case in two: the same generator object already wrote the offsets
+    // of these methods before this update (whatever the previous case left
+    // installed); what it writes afterwards must be the current offsets
+    generator reused;
+    bool reuse = (o.hash & 1) != 0;
+    if (reuse) {
+        methods_view::methods.c = cfg.methods;
+        std::ostringstream before;
+        reused.write_static_offsets<methods_view>(before);
+        o.classes.push_back("generator_object_reused_across_an_update");
+    }
     UpdateOutcome up;
     if (!do_update(w, o, up)) {
         return o;
     }
     methods_view::methods.c = cfg.methods;
     std::ostringstream os;
-    generator().write_static_offsets<methods_view>(os);
+    if (reuse) {
+        reused.write_static_offsets<methods_view>(os);
+    } else {
+        generator().write_static_offsets<methods_view>(os);
+    }
     std::vector<std::string> lines;
     {
         std::istringstream is(os.str());
